@@ -107,6 +107,35 @@ for dt, target, even in [(0.02, 0.01, True), (0.02, 0.01, False), (0.03, 0.01, T
 if worst_o > 1e-9:
     nbad += 1; print("OBJECT-LEVEL MISMATCH", worst_o)
 
+# the THEOREMS of Props/C14Resample.lean evaluated on scipy itself (statement sanity, not a proof)
+def trig(c, K, L, m):   # sum_{|k|<=K} c_k e^{2 pi i k m / L}
+    return sum(c[k + K] * np.exp(2j * np.pi * k * m / L) for k in range(-K, K + 1))
+worst_t = 0.0; nthm = 0
+for _ in range(150):
+    N = int(rng.integers(1, 41)); num = int(rng.integers(1, 41))
+    K = int(rng.integers(0, (min(N, num) // 2) + 1))            # closed band 2K <= N, 2K <= num
+    c = (rng.integers(-8, 9, size=2 * K + 1) + 1j * rng.integers(-8, 9, size=2 * K + 1)) / 4.0
+    if rng.integers(0, 2):                                       # real record: c_{-k} = conj c_k
+        c = (c + np.conj(c[::-1])) / 2
+    if 2 * K == N and N < num:
+        c[0] = c[-1]                                             # cosine at the old Nyquist frequency
+    xs = np.array([trig(c, K, N, j) for j in range(N)])
+    want = np.array([trig(c, K, num, m) for m in range(num)])
+    got = resample(xs.real if np.allclose(xs.imag, 0) else xs, num)
+    worst_t = max(worst_t, np.max(np.abs(got - want)) / max(1.0, np.max(np.abs(xs)))); nthm += 1
+for _ in range(60):                                              # retained samples, any record
+    N = int(rng.integers(1, 31)); r = int(rng.integers(1, 6))
+    xs = rng.integers(-1000, 1001, size=N) / 8.0
+    worst_t = max(worst_t, np.max(np.abs(resample(xs, r * N)[::r] - xs)) / max(1.0, np.max(np.abs(xs)))); nthm += 1
+for P in (1, 2, 5, 8):                                           # cosine at the old Nyquist frequency
+    for num in (2 * P + 1, 2 * P + 2, 4 * P, 37):
+        xs = 3.0 * (-1.0) ** np.arange(2 * P)
+        want = 3.0 * np.cos(np.pi * 2 * P * np.arange(num) / num)
+        worst_t = max(worst_t, np.max(np.abs(resample(xs, num) - want))); nthm += 1
+if worst_t > 1e-9:
+    nbad += 1; print("THEOREM-STATEMENT MISMATCH", worst_t)
+print(f"theorem statements on scipy: {nthm} cases, max rel dev {worst_t:.3e}")
+
 print(f"cases={len(cases)} {kinds} err_cases={len(err_cases)} complex_cases={ncplx} (formula only, {worst_c:.3e}) object_cases={nobj}")
 print(f"max rel |lean_model.re - scipy| = {worst:.3e}; max rel |lean_model.im| = {worst_im:.3e}; "
       f"max rel |python_formula - scipy| = {worst_f:.3e}; object level = {worst_o:.3e}")
